@@ -4,7 +4,7 @@ Shape: history + byte model.  The array under test is created in one of five
 ways (MODES): an owned ffi.new('T[n]') or ffi.new('T[]', n) (ASan red zones
 directly behind it), a fixed-length view cast into the middle of a larger
 malloc'ed block, a slice view x[pre:pre+n] of a larger owned array, or a
-from_buffer('T[]') array over the middle of a bytearray (wrongly accepted
+from_buffer('T[]') array over the middle of a malloc'ed block (wrongly accepted
 accesses show as changes of the neighbouring bytes).  After every operation
 the whole backing store is compared with a bytearray model.  addressof /
 offsetof go through both FFI implementations (cffi.api.FFI -> typeoffsetof +
@@ -21,7 +21,9 @@ RULE = ("case = one history of 60 random operations (index read/write with i in 
         "the view); slices of plain pointers (also negative start, reversed, step, missing "
         "bound); slice assignment from list/tuple/bytes/generator/array cdata of fixed or "
         "variable length type/slice cdata/overlapping slice of the array itself, of right and "
-        "wrong length, with an unconvertible item or a raising iterator; pointer +/- in the forms "
+        "wrong length, with an unconvertible item or a raising iterator, or from an array cdata "
+        "of another item type (judged against the item-wise assignments); x[i][k] bounds of nested "
+        "array elements; pointer +/- in the forms "
         "p+i, i+p, x+i, i+x, p-i; p-q, ptr-array; void*/char* arithmetic; (p+i)[j]; "
         "addressof(x,i[,k|field[,k]]) and offsetof('T[]',i[,...]) through cffi.api.FFI and "
         "_cffi_backend.FFI; owning-pointer indexes incl. new_allocator) over one array of a random "
@@ -34,7 +36,9 @@ ASSUMPTIONS = ["offsets are bounded so that i*sizeof(T) stays below 2**62 (beyon
                "non-integer keys are not generated; slices of a plain pointer are unbounded by design (C "
                "semantics): for them only 'start <= stop, both given, no step, else not accepted' and the view "
                "semantics are demanded, and only inside the backing store",
-               "void* arithmetic: only (vp+i)-vp == i is demanded (the statement gives no element size for void)"]
+               "void* arithmetic: only (vp+i)-vp == i is demanded (the statement gives no element size for void)",
+               "x[i:j] = <array cdata of another item type> is taken to mean the item-wise assignments "
+               "x[i+k] = src[k] (same stored bytes, or an exception when those raise)"]
 
 KINDS = [('char', 'c'), ('signed char', 'b'), ('unsigned char', 'B'), ('short', 'h'), ('unsigned short', 'H'),
          ('int', 'i'), ('unsigned int', 'I'), ('long', 'q'), ('unsigned long long', 'Q'),
@@ -51,6 +55,13 @@ STRUCTS = {'struct sp': [('a', 0, 'short', None), ('b', 2, 'char', None)],
            'struct s3': [('a', 0, 'char', 3)],
            'struct s6': [('a', 0, 'short', None), ('b', 2, 'short', None), ('c', 4, 'short', None)],
            'struct s12': [('a', 0, 'int', None), ('b', 4, 'char', 5)]}
+# item types of equal size (sources of another item type for slice assignment)
+SAME_SIZE = [['char', 'signed char', 'unsigned char'], ['short', 'unsigned short'],
+             ['int', 'unsigned int', 'float', 'struct sp', 'short[2]'],
+             ['long', 'unsigned long long', 'double', 'void *', 'struct sp *'],
+             ['struct s3', 'char[3]'], ['struct s12', 'int[3]']]
+INTS = ['signed char', 'unsigned char', 'short', 'unsigned short', 'int', 'unsigned int', 'long',
+        'unsigned long long']
 MODES = ['own', 'own', 'ownvar', 'view', 'view', 'sliceview', 'sliceview', 'frombuf']
 HUGE = [2 ** 31, 2 ** 63 - 1, 2 ** 63, 2 ** 64, 2 ** 70, -2 ** 63, -2 ** 63 - 1, -2 ** 70]
 
@@ -109,11 +120,13 @@ class H(object):
             elif self.mode == 'sliceview':      # derived view: a slice of a larger owned array
                 self.backing = ffi.new(self.tarr(pre + self.n + post))
                 self.arr = self.backing[pre:pre + self.n]
-            else:                               # from_buffer over the middle of a bytearray
-                self._ba = bytearray(total)
-                self.backing = ffi.from_buffer('char[]', self._ba)
+            else:
+                # from_buffer over the middle of a malloc'ed block.  (The exporter is an
+                # ffi.buffer object, not a memoryview: a memoryview that still has an export
+                # crashes CPython itself when it is cleared as part of cyclic garbage.)
+                self.backing = ffi.new('char[]', total)
                 self.arr = ffi.from_buffer(
-                    self.tvar(), memoryview(self._ba)[self.off:self.off + self.n * self.s])
+                    self.tvar(), ffi.buffer(self.backing + self.off, self.n * self.s))
         init = bytes(rnd.getrandbits(8) for _ in range(total))
         if total:
             ffi.buffer(self.backing, total)[:] = init
@@ -466,6 +479,24 @@ class H(object):
                     if got != exp:
                         self.bad('read-value', '%s: x[%d] = %r, memory holds %r' %
                                  (self.desc(), i, got, exp))
+                    if self.T in NESTED:
+                        # x[i] is itself an array (derived view of one element): its own bounds
+                        it, f, cnt = NESTED[self.T]
+                        isz = struct.calcsize(f)
+                        e = x[i]
+                        k = rnd.randint(-2, cnt + 2)
+                        key = (op, i, k)
+                        if 0 <= k < cnt:
+                            o = self.off + i * s + k * isz
+                            exk = struct.unpack('<' + f, self.model[o:o + isz])[0]
+                            if e[k] != exk:
+                                self.bad('nested-read-value', '%s: x[%d][%d] = %r, memory holds %r'
+                                         % (self.desc(), i, k, e[k], exk))
+                        else:
+                            self.expect_index_error(lambda: e[k], 'x[%d][%d]' % (i, k), 'nested-')
+                        self.expect_index_error(lambda: e[0:cnt + 1], 'x[%d][0:%d]' % (i, cnt + 1),
+                                                'nested-')
+                        self.rep.stat('nested_element_reads')
                 self.rep.stat('reads_ok')
             else:
                 self.expect_index_error(lambda: x[i], 'x[%d]' % i)
@@ -552,7 +583,12 @@ class H(object):
             delta = rnd.choice([0, 0, 0, -1, 1, 2]) if valid else 0
             cnt = max(0, want + delta)
             srckind = rnd.choice(['list', 'tuple', 'gen', 'cdata', 'cdata_var', 'cdata_slice', 'self',
-                                  'self', 'bytes', 'baditem', 'raisegen'])
+                                  'self', 'bytes', 'baditem', 'raisegen', 'othertype'])
+            if srckind == 'othertype':
+                if valid and j > i:
+                    self.sliceassign_othertype(i, j)
+                    return (op, i, j, 'othertype'), op
+                srckind = 'list'
             if self.T == 'char' and rnd.random() < 0.25:
                 srckind = 'bytes'
             if srckind == 'bytes' and self.T != 'char':
@@ -835,6 +871,8 @@ class H(object):
                 specs += [(self.bffi, ':ffi_obj', ffi.typeof(self.tvar())),
                           (self.bffi, ':ffi_obj', ffi.typeof(self.tarr(max(n, 1)))),
                           (self.bffi, ':ffi_obj', ffi.typeof(self.tptr()))]
+                if 'struct' not in self.T:      # the C-level parser knows no cdef'ed names
+                    specs.append((self.bffi, ':ffi_obj', self.tvar()))
             for f, suffix, spec in specs:
                 try:
                     o = f.offsetof(spec, i)
@@ -908,6 +946,60 @@ class H(object):
                 self.expect_index_error(f, 'owning pointer q[%d] = v' % i)
             self.rep.stat('owning_pointer_ops')
         return key, op
+
+    def sliceassign_othertype(self, i, j):
+        """x[i:j] = <array cdata of another item type>: no raw-copy shortcut applies, so it must
+        behave exactly like the item-wise assignments x[i+k] = src[k] (same bytes, or raise when
+        those raise)"""
+        rnd, ffi, s, x = self.rnd, self.ffi, self.s, self.arr
+        cnt = j - i
+        cands = [u for grp in SAME_SIZE if self.T in grp for u in grp if u != self.T]
+        if self.T in INTS and (not cands or rnd.random() < 0.3):
+            cands = [u for u in INTS if u != self.T]
+        if not cands:
+            cands = ['int']
+        U = rnd.choice(cands)
+        tU = ffi.getctype(ffi.typeof(U), '[%d]' % cnt)
+        src = ffi.new(tU)
+        raw = bytes(rnd.getrandbits(8) for _ in range(ffi.sizeof(tU)))
+        if rnd.random() < 0.5:       # small values convert between more types
+            raw = bytes((c & 0x3f) if (k % ffi.sizeof(U)) == 0 else 0 for k, c in enumerate(raw))
+        ffi.buffer(src)[:] = raw
+        scratch = ffi.new(self.tarr(cnt))
+        ffi.buffer(scratch)[:] = bytes(self.model[self.off + i * s: self.off + j * s])
+        ref_exc = None
+        try:
+            for k in range(cnt):
+                scratch[k] = src[k]
+        except Exception as e:
+            ref_exc = '%s: %s' % (type(e).__name__, e)    # (not the exception: no reference cycle)
+        what = 'x[%d:%d] = <cdata %s>' % (i, j, tU)
+        self.rep.stat('sliceassign_src_othertype')
+        try:
+            x[i:j] = src
+        except Exception as e:
+            if ref_exc is None:
+                self.bad('sliceassign-othertype-rejected', '%s: %s raised %s: %s although the '
+                         'item-wise assignments are accepted' % (self.desc(), what,
+                                                                 type(e).__name__, e))
+            else:
+                self.rep.stat('sliceassign_othertype_both_raise')
+            real = bytes(ffi.buffer(self.backing, self.total))
+            self.model[self.off + i * s: self.off + j * s] = real[self.off + i * s: self.off + j * s]
+            return
+        if ref_exc is not None:
+            self.bad('sliceassign-othertype-accepted', '%s: %s accepted although the item-wise '
+                     'assignment raises %s' % (self.desc(), what, ref_exc))
+            real = bytes(ffi.buffer(self.backing, self.total))
+            self.model[self.off + i * s: self.off + j * s] = real[self.off + i * s: self.off + j * s]
+            return
+        self.rep.stat('sliceassign_othertype_both_accept')
+        exp = bytes(ffi.buffer(scratch))
+        real = bytes(ffi.buffer(self.backing, self.total))[self.off + i * s: self.off + j * s]
+        if real != exp:
+            self.bad('sliceassign-othertype-differs-from-itemwise', '%s: %s stored %s, the '
+                     'item-wise assignments store %s' % (self.desc(), what, real.hex(), exp.hex()))
+        self.model[self.off + i * s: self.off + j * s] = real
 
     def rand_path(self):
         """for nested element kinds: (extra addressof/offsetof arguments after the array index,
